@@ -1,13 +1,16 @@
-/- line-protocol driver for C10: `drv_c10 cond` (conditional nests), `drv_c10 incl` (include graphs), `drv_c10 ifline` (controlling expressions as token lines).
+/- line-protocol driver for C10: `drv_c10 cond` (conditional nests), `drv_c10 incl` (include graphs), `drv_c10 ifline` (controlling expressions as token lines),
+   `drv_c10 ifunparse` (trees printed with minimal parentheses).
    Core Lean only (nothing imported here may import Mathlib, or the executable will not link). -/
 import ChibiVerif.Driver.CondInclCmd
 import ChibiVerif.Driver.IfLineCmd
+import ChibiVerif.Driver.IfUnparseCmd
 
 def main (args : List String) : IO UInt32 := do
   match args with
   | "cond" :: _ => ChibiVerif.Driver.C10.condMain
   | "incl" :: _ => ChibiVerif.Driver.C10.inclMain
   | "ifline" :: _ => ChibiVerif.Driver.C10.iflineMain
+  | "ifunparse" :: _ => ChibiVerif.Driver.C10.ifunparseMain
   | _ =>
-    IO.eprintln "usage: drv_c10 cond|incl|ifline"
+    IO.eprintln "usage: drv_c10 cond|incl|ifline|ifunparse"
     return 2
